@@ -281,10 +281,22 @@ def check_c03(ctx):
 # C04
 
 def recount_affinity(cell):
-    """node object id -> {affinity: count}, recounted from the leaves."""
+    """node object id -> {affinity: count}, recounted from the leaves.  An
+    instance counts as placed on a server if either view says so: the
+    server lists it, or the instance names that server as its own (what gets
+    published); an instance is counted once."""
     counts = {}
-    for srv in cellobs.leaves(cell).values():
-        for app in srv.apps.values():
+    leaves = cellobs.leaves(cell)
+    on = {}
+    for sname, srv in leaves.items():
+        for aname, app in srv.apps.items():
+            on.setdefault(sname, {})[aname] = app
+    for aname, app in cell.apps.items():
+        if app.server is not None and app.server in leaves:
+            on.setdefault(app.server, {}).setdefault(aname, app)
+    for sname, apps in on.items():
+        srv = leaves[sname]
+        for app in apps.values():
             for node in cellobs.ancestors(srv):
                 per = counts.setdefault(id(node), {})
                 per[app.affinity.name] = per.get(app.affinity.name, 0) + 1
